@@ -8,7 +8,7 @@ COMMON_ASSUMPTIONS = [
 
 PROPS = {
     "C01": {
-        "level_text": 'Bounded-exhaustive exploration: every (alphabet, length, width, matrix kind, content pattern) point of a stated finite product is scored by all 11 backend/lane/dispatcher-arm configurations and every row sub-range of a menu, and compared with an exact f64 reference and across configurations; plus all 5^L sequences for L<=6. Exploration (not model checking) because the property has no state: the quantifiers are inputs and configurations.',
+        "level_text": 'Bounded-exhaustive exploration: every (alphabet, length, width, matrix kind, content pattern) point of a stated finite product is scored by all 11 backend/lane/dispatcher-arm configurations and every row sub-range of a menu, and compared with an exact f64 reference and across configurations; plus all 5^L sequences for L<=6. Exploration (not model checking) because the property has no state: the quantifiers are inputs and configurations. Also buffer-reuse histories, hand-built sequences with spare rows and weight matrices trimmed with resize before use.',
         "level_note": 'Trusted: the reference model (60 lines, f64 sums), the data-obliviousness argument that lets digit patterns + injective window-encoding matrices stand for all contents, rustc. NEON backend not executed on this host.',
         "technique": 'bounded-exhaustive product enumeration of inputs x backend configurations against a reference model',
         "level": "exploration",
@@ -33,7 +33,7 @@ PROPS = {
         ],
     },
     "C05": {
-        "level_text": 'Bounded-exhaustive exploration: every one of the 256 byte values substituted at every position of every length 0..=100 (0..=300 thorough) on a valid background, plus all pairs of two invalid bytes for lengths <= 70, through every encoder (generic, SSE2, AVX2, three dispatcher arms) and every entry point, against a letter-table oracle.',
+        "level_text": 'Bounded-exhaustive exploration: every one of the 256 byte values substituted at every position of every length 0..=100 (0..=300 thorough) on a valid background, plus all pairs of two invalid bytes for lengths <= 70, through every encoder (generic, SSE2, AVX2, three dispatcher arms) and every entry point, against a letter-table oracle. Plus long texts, the same invalid byte in every block, multi-byte UTF-8, and homopolymer runs: a run of every alphabet letter with every byte value at every position, and runs of every byte value 0..=255 filling whole SIMD blocks.',
         "level_note": 'Trusted: letter table; completeness of the single-substitution + fault-pair model rests on encoders being per-byte functions whose only position dependence is vector-block/tail membership.',
         "technique": 'bounded-exhaustive enumeration of byte x position x length x backend against a table oracle',
         "level": "exploration",
@@ -45,7 +45,7 @@ PROPS = {
         ],
     },
     "C19": {
-        "level_text": 'Model checking of the real DenseMatrix<T,C>: explicit-state BFS over all operation histories to depth 8 (11 thorough) for 28 (element type, column count) instantiations, canonical-state de-duplication, the full oracle (cells, alignment of every row, stride, iteration protocols, equality/clone semantics) evaluated after every transition against a Vec<Vec<T>> model.',
+        "level_text": 'Model checking of the real DenseMatrix<T,C>: explicit-state BFS over all operation histories to depth 8 (11 thorough) for 28 (element type, column count) instantiations, canonical-state de-duplication, the full oracle (cells, alignment of every row, stride, iteration protocols, equality/clone semantics) evaluated after every transition against a Vec<Vec<T>> model. Equality is also probed with a not-self-equal cell (f32 NaN) against itself, its clone and a rebuilt matrix.',
         "level_note": 'Trusted: Vec<Vec<T>> model; key soundness (values written depend only on cell and operation kind). Depth-bounded, not a fixpoint: the state space (cell contents) is not finite-closed under resize.',
         "technique": 'explicit-state BFS by re-execution against a reference table model',
         "level": "model_checking",
@@ -89,7 +89,7 @@ PROPS.update({
         "assumptions": COMMON_ASSUMPTIONS + ["consumed hits are excluded from the maximum (as the statement says)"],
     },
     "C07": {
-        "level_text": "Bounded-exhaustive exploration: score matrices built through the public API with the maximum planted at every column of every row class, for f32 and u8, 0..=40/255/256/257/1000 rows, all-negative / -inf / ramp backgrounds, duplicated maxima, a threshold menu, through every configuration (generic lanes, SSE2, AVX2, dispatcher arms, StripedScores API, unstriped Scores); second clause (-inf past the last valid position) checked on the C01 shape loop.",
+        "level_text": "Bounded-exhaustive exploration: score matrices built through the public API with the maximum planted at every column of every row class, for f32 and u8, 0..=40/255/256/257/1000 rows, all-negative / -inf / ramp backgrounds, duplicated maxima, a threshold menu, through every configuration (generic lanes, SSE2, AVX2, dispatcher arms, StripedScores API, unstriped Scores); second clause (-inf past the last valid position) checked on the C01 shape loop. The second clause includes: the largest cell of the score matrix is the best valid position's score (an empty matrix while a valid position exists is a violation).",
         "level_note": "Trusted: scalar scan of the cells read back through the public matrix accessor. NaN excluded (outside the statement).",
         "technique": "bounded-exhaustive product enumeration of planted-maximum matrices x backends against a scalar oracle",
         "level": "exploration",
@@ -99,7 +99,7 @@ PROPS.update({
         "assumptions": COMMON_ASSUMPTIONS,
     },
     "C08": {
-        "level_text": "Bounded-exhaustive exploration: all 7^M matrices of a row menu (M<=4, 5 thorough) x 3 wildcard-column kinds on a de Bruijn word containing every 5^M window, wide matrices (M up to 64/300) on consensus / anti-consensus / all single-substitution neighbours, through every 8-bit kernel (generic, SSE2, AVX2 saturating, dispatcher arms, scalar score_position); release and overflow-checking builds.",
+        "level_text": "Bounded-exhaustive exploration: all 7^M matrices of a row menu (M<=4, 5 thorough) x 3 wildcard-column kinds on a de Bruijn word containing every 5^M window, wide matrices (M up to 64/300) on consensus / anti-consensus / all single-substitution neighbours, through every 8-bit kernel (generic, SSE2, AVX2 saturating, dispatcher arms, scalar score_position); release and overflow-checking builds. Sequences are also re-configured from fewer look-ahead rows; the pre-filter is checked block-wise and inside the real Scanner (thresholds lowest/median/highest real score x block sizes 1/256 x dispatcher arms).",
         "level_note": "Trusted: f32 sequential reference score and the library's own scale() mapping (the property is stated relative to it). No tolerance is applied (DESIGN section 6).",
         "technique": "bounded-exhaustive enumeration of matrices x all windows x 8-bit kernels, inequality oracle",
         "level": "exploration",
@@ -112,7 +112,7 @@ PROPS.update({
 
 PROPS.update({
     "C16": {
-        "level_text": "Model checking of the real Gibbs sampler: explicit-state BFS to FIXPOINT over the sampler's reachable states for small datasets (DNA/protein, 3-4 sequences, widths 2-3), both modes, three dispatcher arms, driven by a scripted RNG whose every draw outcome is enumerated (initial starts, seed subsets and hold-out choices directly; the weighted start draw by monotone bisection on the 53-bit grid). Every transition is executed twice (determinism) and its pre/post state, public getters and Iteration are compared with a recount from the linear sequences. Because every transition out of every reachable consistent state is checked, runs of any length are covered (inductive invariant).",
+        "level_text": "Model checking of the real Gibbs sampler: explicit-state BFS to FIXPOINT over the sampler's reachable states for small datasets (DNA/protein, 3-4 sequences, widths 2-3), both modes, three dispatcher arms, driven by a scripted RNG whose every draw outcome is enumerated (initial starts, seed subsets and hold-out choices directly; the weighted start draw by monotone bisection on the 53-bit grid). Every transition is executed twice (determinism) and its pre/post state, public getters and Iteration are compared with a recount from the linear sequences. Because every transition out of every reachable consistent state is checked, runs of any length are covered (inductive invariant). Plus fixed-script runs on contig-sized sequences and on a conserved 20-residue protein block whose windows score more than 128 bits.",
         "level_note": "Trusted: recount model; canonical key soundness (DESIGN C16; starts of inactive sequences and the step counters that influence control flow are in the key through hook H2); rand 0.8.8 draw semantics (ranges of the integer draws; monotonicity of WeightedIndex) - both asserted at run time: a mismatch is a machinery failure (exit 2), never a verdict.",
         "technique": "explicit-state BFS to fixpoint over the real sampler with a scripted RNG, every RNG outcome enumerated (monotone bisection)",
         "level": "model_checking",
@@ -125,7 +125,7 @@ PROPS.update({
 
 PROPS.update({
     "C09": {
-        "level_text": 'Bounded-exhaustive exploration: every point of the product count-matrix menu (DNA widths 1..=3, protein 1..=2; thorough +1) x 5 pseudocount specs x 5 backgrounds x 4 logarithm bases is pushed through every conversion route (to_freq, to_weight, to_scoring, into_scoring, to_weight.to_scoring[_with_base], to_weight(None).rescale.to_scoring[_with_base]) and compared cell by cell with an f64 reference written from the definitions; every wildcard-free window is held against min_score/max_score; every ordered tuple of <=3 DNA sequences of length <=2 through from_sequences; Background::new on all 9^5 arrays over a value menu, from_counts/from_sequence(s) and FrequencyMatrix::new on complete small menus. Exploration: the property has no state, the quantifier is inputs.',
+        "level_text": 'Bounded-exhaustive exploration: every point of the product count-matrix menu (DNA widths 1..=3, protein 1..=2; thorough +1) x 5 pseudocount specs x 5 backgrounds x 4 logarithm bases is pushed through every conversion route (to_freq, to_weight, to_scoring, into_scoring, to_weight.to_scoring[_with_base], to_weight(None).rescale.to_scoring[_with_base]) and compared cell by cell with an f64 reference written from the definitions; every wildcard-free window is held against min_score/max_score; every ordered tuple of <=3 DNA sequences of length <=2 through from_sequences; Background::new on all 9^5 arrays over a value menu, from_counts/from_sequence(s) and FrequencyMatrix::new on complete small menus. Exploration: the property has no state, the quantifier is inputs. Acceptance by Background::new is demanded only of arrays of multiples of 1/16 in [0,1] adding up to exactly one (one-symbol backgrounds included).',
         "level_note": 'Trusted: the 40-line f64 reference (count+pseudo)/total -> f/b -> log_base with the zero-background conventions; the derived tolerances gamma_{K+2}/gamma_{K+3}/gamma_{K+5} + 4 ulp for the logarithm (largest observed error = 0.26 x tolerance). Only the rejecting side of validation is demanded; FrequencyMatrix::new rejection is demanded for deviations > 0.0105 (documented tolerance 0.01). Rows with total 0 (0/0) are skipped.',
         "technique": 'bounded-exhaustive product enumeration of count/pseudocount/background/base menus and invalid-input menus against an f64 reference model',
         "level": "exploration",
@@ -210,7 +210,7 @@ PROPS.update({
 
 PROPS.update({
     "C11": {
-        "level_text": 'Bounded-exhaustive exploration: for every matrix of a stated menu (log-odds matrices M=2..6, thorough ..8, from 16 count rows x pseudocounts x 4 background/wildcard configurations; 18 hand matrices x 6 configurations) the exact score distribution is obtained by enumerating all K\'^M words, and ScoreDistribution is queried at every distinct attainable score, +-1 and +-1/2 discretisation step, far below/above, and at every attainable tail probability, midpoints, every tabulated sf value and fixed p; sf monotone in [0,1], pvalue within P(S>=s+d)..P(S>=s-d) (d = (M/2+1) steps), pvalue monotone, pvalue(score(p)) <= p. Structural clauses also for M in {12,16,20}.',
+        "level_text": 'Bounded-exhaustive exploration: for every matrix of a stated menu (log-odds matrices M=2..6, thorough ..8, from 16 count rows x pseudocounts x 4 background/wildcard configurations; 18 hand matrices x 6 configurations) the exact score distribution is obtained by enumerating all K\'^M words, and ScoreDistribution is queried at every distinct attainable score, +-1 and +-1/2 discretisation step, far below/above, and at every attainable tail probability, midpoints, every tabulated sf value and fixed p; sf monotone in [0,1], pvalue within P(S>=s+d)..P(S>=s-d) (d = (M/2+1) steps), pvalue monotone, pvalue(score(p)) <= p. Structural clauses also for M in {12,16,20}. Score queries include +-1e7 .. +-f32::MAX.',
         "level_note": 'Trusted: the 40-line brute-force oracle (f64, background normalised by its f32 total, 1e-6 absolute allowance on probabilities); the step is recovered from the public unscale(). Exploration, not model checking: the property quantifies over inputs only.',
         "technique": 'bounded-exhaustive enumeration of matrices x backgrounds x score/p grids against a brute-force exact distribution',
         "level": "exploration", "package": "vx-pval", "profiles": ["rel", "chk"],
